@@ -4,7 +4,7 @@
     it adds the connection. *)
 From Coq Require Import Ascii String List Bool PArith NArith FMapPositive Permutation Lia.
 From PTBase Require Import Exn PyStr.
-From P Require Import Assoc GridEdit GridLemmas Inv InvConn InvAdd.
+From P Require Import Assoc GridEdit GridLemmas Inv InvConnAdd InvAdd.
 Import ListNotations.
 Open Scope list_scope.
 
